@@ -33,6 +33,9 @@ type scriptedPeers struct {
 	ids      []uint64
 	failures map[uint64]int // peer -> number of requests that still fail
 	requests [][3]uint64    // peer, start, end
+	// burst: the requests with ordinal burstFrom .. burstFrom+burstLen-1 fail whoever is asked (every other replica is
+	// unreachable or does not hold the blocks yet for a moment)
+	burstFrom, burstLen, reqNo int
 }
 
 func (p *scriptedPeers) Start() error { return nil }
@@ -49,6 +52,11 @@ func (p *scriptedPeers) Send(to orderPeerMgr.KeyType, m *pb.Message) (*pb.Messag
 		return nil, err
 	}
 	p.requests = append(p.requests, [3]uint64{id, req.Start, req.End})
+	n := p.reqNo
+	p.reqNo++
+	if n >= p.burstFrom && n < p.burstFrom+p.burstLen {
+		return nil, fmt.Errorf("scripted failure of request %d (peer %d)", n, id)
+	}
 	if p.failures[id] > 0 {
 		p.failures[id]--
 		return nil, fmt.Errorf("scripted failure of peer %d", id)
@@ -103,6 +111,12 @@ func c20SyncProperty(t *rapid.T) {
 			peers.failures[id] = 1
 		}
 	}
+	if rapid.IntRange(0, 23).Draw(t, "withBurst") == 0 {
+		// several requests in a row fail (also more than there are peers): the sub-range has to be asked for again
+		// until it arrives, a later sub-range must not be delivered before it
+		peers.burstFrom = rapid.IntRange(0, 3).Draw(t, "burstFrom")
+		peers.burstLen = rapid.IntRange(2, 5).Draw(t, "burstLen")
+	}
 	s, err := syncer.New(fetch, peers, 2, []uint64{2, 3, 4}, sim.Logger)
 	if err != nil {
 		t.Fatalf("C20 harness: %v", err)
@@ -143,9 +157,13 @@ func c20SyncProperty(t *rapid.T) {
 	st := sim.StatsFor("C20")
 	nt := ""
 	if span >= 2 {
-		nt = fmt.Sprintf("sync/%d/%d/%d/%v", begin, end, fetch, peers.failures)
+		nt = fmt.Sprintf("sync/%d/%d/%d/%v/%d+%d", begin, end, fetch, peers.failures, peers.burstFrom, peers.burstLen)
 	}
-	st.Case(nt, "sync-range")
+	if peers.burstLen > 0 {
+		st.Case(nt, "sync-range", "sync-failure-burst")
+	} else {
+		st.Case(nt, "sync-range")
+	}
 	st.AddExtra("sync_ranges", 1)
 }
 
